@@ -121,7 +121,7 @@ Definition retry_fold (cfg : config) (post : dump) (e : event) (o : list obs) (m
             | Some ops =>
               let prev := aget wref_eqb w (m_reissue m) in
               let n := match prev with
-                       | Some (ops0, n0) => if same_set Nat.eqb ops0 ops then S n0 else O
+                       | Some (ops0, n0) => if shares_op ops0 ops then S n0 else O
                        | None => O
                        end in
               (m <| m_reissue := aset wref_eqb w (ops, n) (m_reissue m) |>,
@@ -144,7 +144,7 @@ Definition pc_early (cfg : config) (pre post : dump) (m0 : mon) : string :=
                       if scheduler_made r && (r_code r =? cINTERNAL)%N then
                         match aget wref_eqb (mkW (do_sk o0) (fst wk) (snd wk)) (m_reissue m0) with
                         | Some (ops0, n0) =>
-                          if same_set Nat.eqb ops0 (do_taskops o0) && negb (Nat.eqb n0 (cf_retry_count cfg))
+                          if shares_op ops0 (do_taskops o0) && negb (Nat.eqb n0 (cf_retry_count cfg))
                           then "C06:task-failed-before-retry-limit"%string else ""%string
                         | None => ""%string
                         end
